@@ -340,6 +340,10 @@ def is_date(instance):
     # ISO 8601 spellings such as 20200101 or 2020-W01-1
     if not re.fullmatch(r"[0-9]{4}-[0-9]{2}-[0-9]{2}", instance):
         return False
+    if instance.startswith(u"0000"):
+        # RFC 3339 years run from 0000, datetime's from 1: check the month
+        # and day in 2000, which is a leap year just as 0000 is
+        instance = u"2000" + instance[4:]
     return _is_date(instance)
 
 
